@@ -17,13 +17,12 @@ import (
 	"strings"
 	"testing"
 
-	"github.com/bfenetworks/bfe/bfe_http"
 	"pgregory.net/rapid"
 
 	"verif/harness/internal/ev"
 )
 
-const c23Rule = "chunked bodies behind a request/response head with Transfer-Encoding: chunked, read via ReadRequest/ReadResponse over bfe_bufio (random head padding and TCP-like segmentation): (a) random bodies x random chunkings written by bfe's own encoder (Request.Write/Response.Write, unknown length); (b) grammar-generated valid streams (upper/lower/mixed hex, leading zeros up to 16 digits, chunk-ext, trailers); (c) one targeted mutation of (b): empty/17+ digit/overflowing/non-hex size lines, trailing ws, bare LF, broken CRLF after data, off-by-one size, truncation, trailer line deviations, random byte edit; (d) seed constants. non-trivial: >=2 data chunks or a size-line edge case (leading zeros, >=8 digits, or any size-line mutation); distinct by (mode, padding, tail, chunked bytes)"
+const c23Rule = "(e) concurrent writers: 2..8 goroutines each writing its own unknown-length request/response to its own yielding writer, every wire image must equal the one produced when written alone. Otherwise: chunked bodies behind a request/response head with Transfer-Encoding: chunked, read via ReadRequest/ReadResponse over bfe_bufio (random head padding and TCP-like segmentation): (a) random bodies x random chunkings written by bfe's own encoder (Request.Write/Response.Write, unknown length); (b) grammar-generated valid streams (upper/lower/mixed hex, leading zeros up to 16 digits, chunk-ext, trailers); (c) one targeted mutation of (b): empty/17+ digit/overflowing/non-hex size lines, trailing ws, bare LF, broken CRLF after data, off-by-one size, truncation, trailer line deviations, random byte edit, each size-line deviation optionally followed by a chunk extension; (d) seed constants. non-trivial: >=2 data chunks or a size-line edge case (leading zeros, >=8 digits, or any size-line mutation); distinct by (mode, padding, tail, chunked bytes)"
 
 const c23Sentinel = "GET /sentinel HTTP/1.1\r\nHost: s\r\n\r\n"
 
@@ -199,24 +198,7 @@ func (p *pieceReader) Read(b []byte) (int, error) {
 // after the header block.
 func c23Encode(mode string, pieces [][]byte, cl int64) (blob []byte, err error) {
 	var buf bytes.Buffer
-	cp := make([][]byte, len(pieces))
-	copy(cp, pieces)
-	body := &pieceReader{pieces: cp}
-	if mode == "response" {
-		resp := &bfe_http.Response{StatusCode: 200, ProtoMajor: 1, ProtoMinor: 1, Header: bfe_http.Header{},
-			Body: io.NopCloser(body), ContentLength: -1, TransferEncoding: []string{"chunked"}}
-		err = resp.Write(&buf)
-	} else {
-		var req *bfe_http.Request
-		req, err = bfe_http.NewRequest("POST", "http://h/c23", body)
-		if err != nil {
-			return nil, err
-		}
-		req.ContentLength = cl
-		req.State = new(bfe_http.RequestState) // as ReadRequest sets it; Write records BodySize there
-		err = req.Write(&buf)
-	}
-	if err != nil {
+	if err = c23EncodeWire(&buf, c23EncSpec{Mode: mode, Pieces: pieces, CL: cl}); err != nil {
 		return nil, err
 	}
 	wire := buf.Bytes()
@@ -429,6 +411,18 @@ func genMutatedStream(rt *rapid.T) (blob []byte, class string, noTail bool) {
 			s.finalEOL = "\n"
 		}
 	}
+	if strings.HasPrefix(op, "size-") && op != "size-bare-lf" && uni(rt, "mut_ext", 3) == 0 {
+		// the same size-line deviation followed by a chunk extension: an
+		// implementation that understands extensions cuts the line at ';' and
+		// must still apply every size check to what is in front of it
+		ext := c23Exts[uni(rt, "mut_ext_form", len(c23Exts))]
+		if onLast && op != "size-off-by-one" && op != "size-huge16" {
+			s.lastLine += ext
+		} else {
+			c.sizeLine += ext
+		}
+		class += "+ext"
+	}
 	blob = s.render()
 	switch op {
 	case "truncate":
@@ -504,7 +498,30 @@ func TestC23(t *testing.T) {
 			for _, mode := range []string{"request", "response"} {
 				c23Check(t, rec, c23Case{Mode: mode, Blob: []byte(blob), Tail: true, Class: "sweep-digits"})
 			}
+			// the same size followed by a chunk extension
+			for _, ext := range []string{";x", ";a=b", " ;x", ";"} {
+				eb := strings.Replace(blob, line+"\r\n", line+ext+"\r\n", 1)
+				c23Check(t, rec, c23Case{Mode: "request", Blob: []byte(eb), Tail: true, Class: "sweep-digits+ext"})
+			}
 		}
+	}
+	// concurrent writers (deterministic part): 8 goroutines, each writing its own
+	// unknown-length request (ContentLength 0 = probe path, and -1) / response 20 times
+	// to its own slow connection; once with all of them on one P, once on all Ps
+	for _, procs := range []int{1, 0, 1} {
+		var specs []c23EncSpec
+		for i := 0; i < 8; i++ {
+			mode, cl := "request", int64(0)
+			if i%4 == 2 {
+				cl = -1
+			}
+			if i%4 == 3 {
+				mode = "response"
+			}
+			body := bytes.Repeat([]byte{byte('A' + i)}, 4+i)
+			specs = append(specs, c23EncSpec{Mode: mode, CL: cl, Pieces: [][]byte{body[:2], body[2:], []byte(fmt.Sprintf(" body of writer %d", i))}})
+		}
+		c23ConcurrentGroup(t, rec, specs, 20, procs, "concurrent-fixed")
 	}
 	// deterministic sweep: every non-hex byte as a one-character chunk-size, with data
 	// lengths a sloppy digit mapping could produce ('g' -> 16, ':' -> 10, '@' -> 9 ...)
@@ -524,7 +541,30 @@ func TestC23(t *testing.T) {
 		c.Pad = genPad(rt)
 		c.Segs = genSegs(rt)
 		c.Tail = true
-		switch kind := uni(rt, "kind", 10); {
+		kind := uni(rt, "kind", 10)
+		if kind == 0 && uni(rt, "concurrent?", 2) == 0 { // (a') concurrent writers
+			n := 2 + uni(rt, "nwriters", 5)
+			var specs []c23EncSpec
+			for i := 0; i < n; i++ {
+				sp := c23EncSpec{Mode: "request", CL: int64(-uni(rt, "ccl", 2))}
+				if uni(rt, "cresp", 5) == 0 {
+					sp.Mode = "response"
+				}
+				for j, np := 0, 1+uni(rt, "cnp", 3); j < np; j++ {
+					p := genData(rt, fmt.Sprintf("c%d_%d", i, j), 200)
+					if len(p) == 0 {
+						p = []byte{byte('a' + i)}
+					}
+					sp.Pieces = append(sp.Pieces, p)
+				}
+				specs = append(specs, sp)
+			}
+			procs := []int{1, 1, 0, 2}[uni(rt, "procs", 4)]
+			rec.Sample(map[string]any{"gen": "concurrent", "writers": n, "gomaxprocs": procs})
+			c23ConcurrentGroup(rt, rec, specs, 1+uni(rt, "crounds", 4), procs, "concurrent")
+			return
+		}
+		switch {
 		case kind <= 1: // (a, 10) encoder round trip
 			np := rapid.IntRange(0, 6).Draw(rt, "npieces")
 			var pieces [][]byte
